@@ -1,6 +1,7 @@
 (* Correspondence driver: evaluates the extracted Coq models (and specs) on the cases the Go
    harness recorded from the implementation, and reports every difference. *)
 open Conv
+open Absparse
 module L = Stdlib.List
 module S = Stdlib.String
 
@@ -11,7 +12,7 @@ let ev_str (e : int Lcs.event) = match e with
   | Lcs.Remove i -> "r" ^ string_of_int (int_of_z i)
   | Lcs.Add (i, v) -> "a" ^ string_of_int (int_of_z i) ^ ":" ^ string_of_int v
 let parse_ev (s : string) : int Lcs.event =
-  if s.[0] = 'r' then Lcs.Remove (z_of_int (int_of_string (S.sub s 1 (S.length s - 1))))
+  if (S.get s (0)) = 'r' then Lcs.Remove (z_of_int (int_of_string (S.sub s 1 (S.length s - 1))))
   else match S.split_on_char ':' (S.sub s 1 (S.length s - 1)) with
     | [i; v] -> Lcs.Add (z_of_int (int_of_string i), int_of_string v)
     | _ -> failwith "ev"
@@ -45,6 +46,190 @@ let handlers : (string * (string list -> string -> verdict)) list = [
       let spec = (match Lcs.apply_evs ievs a with Some b' -> b' = b | None -> false)
                  && (a <> b || ievs = []) in
       { model = ms; spec_ok = Some spec; nontrivial = m <> [] }
+    | _ -> failwith "args");
+  "ressub", (fun args impl -> match args with
+    | [init; ops] ->
+      let tail s = S.sub s 1 (S.length s - 1) in
+      let c0 = if (S.get init (0)) = 'M' then ResSub.CModel (kv_of (tail init)) else ResSub.CColl (list_of (tail init)) in
+      let op_of (o : string) : ResSub.op =
+        let rest = S.sub o 2 (S.length o - 2) in
+        match S.sub o 0 2 with
+        | "ec" -> ResSub.OpEvent (ResSub.EChange (kv_of rest))
+        | "eC" -> ResSub.OpEvent ResSub.EChangeBad
+        | "ea" -> (match S.split_on_char ':' rest with
+                   | [i; v] -> ResSub.OpEvent (ResSub.EAdd (z_of_int (int_of_string i), value_of v))
+                   | _ -> failwith "ea")
+        | "eA" -> ResSub.OpEvent ResSub.EAddBad
+        | "er" -> ResSub.OpEvent (ResSub.ERemove (z_of_int (int_of_string rest)))
+        | "eR" -> ResSub.OpEvent ResSub.ERemoveBad
+        | "ed" -> ResSub.OpEvent ResSub.EDelete
+        | "eu" -> ResSub.OpEvent (ResSub.ECustom (nat_of_int (int_of_string rest)))
+        | "ex" -> ResSub.OpEvent ResSub.EReaccess
+        | "rs" -> ResSub.OpResetStart
+        | "rm" -> ResSub.OpResetAnswer (ResSub.RModel (kv_of rest))
+        | "rc" -> ResSub.OpResetAnswer (ResSub.RColl (list_of rest))
+        | "rn" -> ResSub.OpResetAnswer ResSub.RNotFound
+        | "re" -> ResSub.OpResetAnswer ResSub.RError
+        | _ -> failwith ("op " ^ o) in
+      let ops = L.map op_of (split_on '|' ops) in
+      let (r, outs) = ResSub.run (ResSub.init c0) ops in
+      let n i = string_of_int (int_of_nat i) in
+      let oev_s (o : ResSub.oev) = match o with
+        | ResSub.OChange (v, ch) -> "C" ^ n v ^ "/" ^ kv_s ch
+        | ResSub.OAdd (v, i, x) -> "A" ^ n v ^ "/" ^ string_of_int (int_of_z i) ^ "/" ^ value_s x
+        | ResSub.ORemove (v, i, x) -> "R" ^ n v ^ "/" ^ string_of_int (int_of_z i) ^ "/" ^ value_s x
+        | ResSub.ODelete v -> "D" ^ n v
+        | ResSub.OCustom (v, u) -> "U" ^ n v ^ "/" ^ n u
+        | ResSub.OReaccess v -> "X" ^ n v in
+      let outs_s = S.concat "|" (L.map (fun o -> S.concat "+" (L.map oev_s o)) outs) in
+      let st = match r.ResSub.cont with ResSub.CModel m -> "M" ^ kv_s m | ResSub.CColl l -> "L" ^ list_s l in
+      let fin = Printf.sprintf "%s v%d s%d c%d e%d" st (int_of_nat r.ResSub.version) (int_of_nat r.ResSub.nsubs)
+                  (int_of_z r.ResSub.count) (int_of_nat r.ResSub.errs) in
+      { model = outs_s ^ " => " ^ fin; spec_ok = None; nontrivial = L.exists (fun o -> o <> []) outs }
+    | _ -> failwith "args");
+  "valid_part", (fun args impl -> match args with
+    | [p] -> let m = RidPart.is_valid_part (chars_of_string (unhex p)) in
+      { model = bool_s m; spec_ok = None; nontrivial = m }
+    | _ -> failwith "args");
+  "parse_rid", (fun args impl -> match args with
+    | [s] -> let l = chars_of_string (unhex s) in
+      let m = hex (string_of_chars (Rid.name_of l)) ^ ":" ^ hex (string_of_chars (RidPart.query_of l)) in
+      { model = m; spec_ok = None; nontrivial = L.mem '?' l }
+    | _ -> failwith "args");
+  "dispatch", (fun args impl -> match args with
+    | [m] ->
+      let hx l = hex (string_of_chars l) in
+      let r = match RidPart.dispatch_method (chars_of_string (unhex m)) with
+        | RidPart.DVersion -> "V" | RidPart.DInvalid -> "I"
+        | RidPart.DAction (a, rid, meth) -> "A:" ^ hx a ^ ":" ^ hx rid ^ ":" ^ hx meth in
+      (* spec on the implementation's own answer: a forwarded rid/method is subject-clean *)
+      let spec = (match S.split_on_char ':' impl with
+        | ["A"; a; rid; meth] ->
+          let rid = unhex rid and meth = unhex meth in
+          let name = (match S.index_opt rid '?' with Some i -> S.sub rid 0 i | None -> rid) in
+          let okc c = let n = Char.code c in n >= 33 && n <= 126 && c <> '*' && c <> '>' && c <> '?' in
+          let toks = S.split_on_char '.' name in
+          L.for_all (fun t -> t <> "" && S.for_all okc t) toks
+          && (meth = "" || (S.for_all okc meth && not (S.contains meth '.')))
+          && (unhex m = unhex a ^ "." ^ rid ^ (if meth = "" then "" else "." ^ meth))
+        | _ -> true) in
+      { model = r; spec_ok = Some spec; nontrivial = r <> "I" }
+    | _ -> failwith "args");
+  "pattern", (fun args impl -> match args with
+    | [p; n] ->
+      let p = chars_of_string (unhex p) and n = chars_of_string (unhex n) in
+      let v = PatternParse.is_valid p in
+      let m = PatternParse.match_model p n in
+      { model = bool_s v ^ bool_s m; spec_ok = None; nontrivial = v }
+    | _ -> failwith "args");
+  "error_status", (fun args impl -> match args with
+    | [c] ->
+      let code = (match unhex c with
+        | "system.accessDenied" -> Status.AccessDenied | "system.internalError" -> Status.InternalError
+        | "system.invalidParams" -> Status.InvalidParams | "system.invalidQuery" -> Status.InvalidQuery
+        | "system.methodNotFound" -> Status.MethodNotFound | "system.noSubscription" -> Status.NoSubscription
+        | "system.notFound" -> Status.NotFound | "system.timeout" -> Status.Timeout
+        | "system.invalidRequest" -> Status.InvalidRequest | "system.unsupportedProtocol" -> Status.UnsupportedProtocol
+        | "system.subjectTooLong" -> Status.SubjectTooLong | "system.deleted" -> Status.Deleted
+        | "system.badRequest" -> Status.BadRequest | "system.methodNotAllowed" -> Status.MethodNotAllowed
+        | "system.serviceUnavailable" -> Status.ServiceUnavailable | "system.forbidden" -> Status.Forbidden
+        | "system.notImplemented" -> Status.NotImplemented
+        | "<plain-go-error>" -> Status.InternalError
+        | _ -> Status.OtherCode) in
+      { model = string_of_int (int_of_z (Status.error_status code)); spec_ok = None; nontrivial = true }
+    | _ -> failwith "args");
+  "status_error", (fun args impl -> match args with
+    | [s] ->
+      let c = Status.status_error (z_of_int (int_of_string s)) in
+      let name = (match c with
+        | Status.AccessDenied -> "system.accessDenied" | Status.InternalError -> "system.internalError"
+        | Status.Forbidden -> "system.forbidden" | Status.NotFound -> "system.notFound"
+        | Status.MethodNotAllowed -> "system.methodNotAllowed" | Status.Timeout -> "system.timeout"
+        | Status.BadRequest -> "system.badRequest" | Status.NotImplemented -> "system.notImplemented"
+        | Status.ServiceUnavailable -> "system.serviceUnavailable" | _ -> "?") in
+      { model = name; spec_ok = None; nontrivial = true }
+    | _ -> failwith "args");
+  "meta_status", (fun args impl -> match args with
+    | [s] ->
+      let o = if s = "none" then None else Some (z_of_int (int_of_string s)) in
+      { model = bool_s (Status.is_direct o) ^ bool_s (Status.is_valid_status o); spec_ok = None; nontrivial = true }
+    | _ -> failwith "args");
+  "origin", (fun args impl -> match args with
+    | [os; o] ->
+      let os = L.map (fun h -> chars_of_string (unhex h)) (S.split_on_char ',' os) in
+      let o = chars_of_string (unhex o) in
+      let m = Origin.matches_origins os o in
+      (* spec: equal to a listed origin ignoring ASCII case (list entries are already lower-case) *)
+      let lower s = S.map (fun c -> if c >= 'A' && c <= 'Z' then Char.chr (Char.code c + 32) else c) s in
+      let spec = L.exists (fun s -> string_of_chars s = lower (string_of_chars o)) os in
+      { model = bool_s m; spec_ok = Some (impl = bool_s spec); nontrivial = m }
+    | _ -> failwith "args");
+  "to_lower", (fun args impl -> match args with
+    | [o] -> { model = hex (string_of_chars (Origin.to_lower (chars_of_string (unhex o)))); spec_ok = None; nontrivial = true }
+    | _ -> failwith "args");
+  "path_to_rid", (fun args impl -> match args with
+    | [p; q; pre] ->
+      let c x = chars_of_string (unhex x) in
+      let m = HttpPath.path_to_rid (c p) (c q) (c pre) in
+      { model = hex (string_of_chars m); spec_ok = None; nontrivial = m <> [] }
+    | _ -> failwith "args");
+  "path_to_rid_action", (fun args impl -> match args with
+    | [p; q; pre] ->
+      let c x = chars_of_string (unhex x) in
+      let (r, a) = HttpPath.path_to_rid_action (c p) (c q) (c pre) in
+      { model = hex (string_of_chars r) ^ ":" ^ hex (string_of_chars a); spec_ok = None; nontrivial = r <> [] }
+    | _ -> failwith "args");
+  "rid_to_path", (fun args impl -> match args with
+    | [r; pre] ->
+      let c x = chars_of_string (unhex x) in
+      let m = HttpPath.rid_to_path (c r) (c pre) in
+      { model = hex (string_of_chars m); spec_ok = None; nontrivial = m <> [] }
+    | _ -> failwith "args");
+  "header", (fun args impl -> match args with
+    | [a; b] ->
+      let ids = Hashtbl.create 16 and names = Hashtbl.create 16 in
+      let idof v = (try Hashtbl.find ids v with Not_found ->
+        let n = Hashtbl.length ids in Hashtbl.add ids v n; Hashtbl.add names n v; n) in
+      let parse s = L.map (fun e -> match S.index_opt e '=' with
+          | Some i -> let vs = S.split_on_char '|' (S.sub e (i+1) (S.length e - i - 1)) in
+                      (chars_of_string (S.sub e 0 i), L.map (fun v -> nat_of_int (idof v)) vs, vs)
+          | None -> failwith "hdr") (split_on ';' (unhex s)) in
+      let pa = parse a in let pb = parse b in
+      let strip l = L.map (fun (k, ns, _) -> (k, ns)) l in
+      let r = Header.apply_meta (strip pa) (strip pb) in
+      let render h =
+        let h = L.map (fun (k, ns) ->
+          let k = string_of_chars k in
+          let vs = L.map (fun n -> Hashtbl.find names (int_of_nat n)) ns in
+          let vs = if k = "Set-Cookie" then
+              (let (bs, ms) = L.partition (fun v -> (S.get v (0)) = 'b') vs in bs @ L.sort compare ms)
+            else if L.length vs > 1 then L.sort compare vs else vs in
+          (k, vs)) h in
+        let h = L.sort (fun (a, _) (b, _) -> compare a b) h in
+        S.concat ";" (L.map (fun (k, vs) -> k ^ "=" ^ S.concat "|" vs) h) in
+      let protected = ["Sec-Websocket-Extensions"; "Sec-Websocket-Protocol"; "Access-Control-Allow-Credentials"; "Access-Control-Allow-Origin"; "Content-Type"] in
+      (* spec on the implementation's own output: protected names keep exactly the base value; Set-Cookie keeps base values first *)
+      let out = L.map (fun e -> match S.index_opt e '=' with Some i -> (S.sub e 0 i, S.sub e (i+1) (S.length e - i - 1)) | None -> (e, "")) (split_on ';' (unhex impl)) in
+      let base = L.map (fun (k, _, vs) -> (string_of_chars k, S.concat "|" vs)) pa in
+      let spec = L.for_all (fun p -> L.assoc_opt p out = L.assoc_opt p base) protected
+        && (match L.assoc_opt "Set-Cookie" base with
+            | Some b -> (match L.assoc_opt "Set-Cookie" out with Some o -> S.length o >= S.length b && S.sub o 0 (S.length b) = b | None -> false)
+            | None -> true) in
+      { model = hex (render r); spec_ok = Some spec; nontrivial = pb <> [] }
+    | _ -> failwith "args");
+  "throttle", (fun args impl -> match args with
+    | [limit; ops] ->
+      let t0 = { Throttle.limit = nat_of_int (int_of_string limit); Throttle.running = Datatypes.O; Throttle.queue = [] } in
+      let rec go t ops acc total = match ops with
+        | [] -> (L.rev acc, total)
+        | o :: rest ->
+          let op = if o = "d" then Throttle.Done else Throttle.Add (nat_of_int (int_of_string (S.sub o 1 (S.length o - 1)))) in
+          (match Throttle.step t op with
+           | Throttle.Crash -> (L.rev ("CRASH" :: acc), total)
+           | Throttle.Ok (t', ran) ->
+             go t' rest (S.concat "+" (L.map (fun n -> string_of_int (int_of_nat n)) ran) :: acc) (total + L.length ran)) in
+      let (outs, total) = go t0 (split_on ',' ops) [] 0 in
+      { model = S.concat "," outs ^ " total=" ^ string_of_int total; spec_ok = None; nontrivial = L.length outs > 2 }
     | _ -> failwith "args");
 ]
 
